@@ -57,10 +57,20 @@ type c07Op struct {
 	Slot    int    `json:"slot,omitempty"`   // write: which 100-unit slot of the time axis it fills (slots are used once, in any order)
 	A       int64  `json:"a,omitempty"`      // read: bounds (in units of the time axis used by writes)
 	B       int64  `json:"b,omitempty"`
-	Span    int64  `json:"span,omitempty"` // read: 0 = one step over everything, else fixed span sweep
-	Iter    bool   `json:"iter,omitempty"` // badopen: iterator instead of writer
+	Span    int64  `json:"span,omitempty"`  // read: 0 = one step over everything, else fixed span sweep
+	Iter    bool   `json:"iter,omitempty"`  // badopen: iterator instead of writer
 	Mixed   bool   `json:"mixed,omitempty"` // badopen: the missing key comes together with existing ones
 	Lease   int    `json:"lease,omitempty"` // badopen: node the missing key claims to be leased to
+	// write: every frame also carries series of the channels of a group that is NOT one of
+	// the writer's (as a frame taken from a wider stream does), masked out with KeepKeys:
+	// such series must go nowhere. Extra is that group's index + 1.
+	Extra int `json:"extra,omitempty"`
+	// write: auto-commit off: nothing may be visible anywhere before Commit
+	NoAuto bool `json:"no_auto,omitempty"`
+	// read: open on wide bounds, then SetBounds to [A,B)
+	Rebound bool `json:"rebound,omitempty"`
+	// read: walk backwards (SeekLast, Prev)
+	Rev bool `json:"rev,omitempty"`
 }
 
 type c07Case struct {
@@ -112,6 +122,22 @@ func genC07(t *rapid.T) c07Case {
 			for f := rapid.IntRange(1, 3).Draw(t, "nframes"); f > 0; f-- {
 				op.Frames = append(op.Frames, rapid.IntRange(1, 3).Draw(t, "ns"))
 			}
+			if rapid.IntRange(0, 2).Draw(t, "extra") == 0 {
+				inOp := map[int]bool{}
+				for _, gi := range op.Groups {
+					inOp[gi] = true
+				}
+				var others []int
+				for gi := range c.Groups {
+					if !inOp[gi] {
+						others = append(others, gi)
+					}
+				}
+				if len(others) > 0 {
+					op.Extra = others[rapid.IntRange(0, len(others)-1).Draw(t, "extra_g")] + 1
+				}
+			}
+			op.NoAuto = rapid.IntRange(0, 2).Draw(t, "noauto") == 0
 			c.Ops = append(c.Ops, op)
 			writes++
 		case k < 8:
@@ -123,6 +149,8 @@ func genC07(t *rapid.T) c07Case {
 			if rapid.Bool().Draw(t, "sweep") {
 				op.Span = int64(rapid.IntRange(1, 7).Draw(t, "span"))
 			}
+			op.Rebound = rapid.IntRange(0, 3).Draw(t, "rebound") == 0
+			op.Rev = rapid.IntRange(0, 3).Draw(t, "rev") == 0
 			c.Ops = append(c.Ops, op)
 		case k < 9:
 			c.Ops = append(c.Ops, c07Op{K: "local"})
@@ -320,7 +348,11 @@ func runC07Body(c c07Case, st *drv.Stats) (fail *drv.Failure) {
 				lowest = next
 			}
 			start := next
-			w, err := cluster.Nodes[node.Key(op.Gateway)].Framer.OpenWriter(ctx, writer.Config{Keys: keys, Start: telem.TimeStamp(start * c07Unit), Sync: new(true)})
+			wcfg := writer.Config{Keys: keys, Start: telem.TimeStamp(start * c07Unit), Sync: new(true)}
+			if op.NoAuto {
+				wcfg.EnableAutoCommit = new(false)
+			}
+			w, err := cluster.Nodes[node.Key(op.Gateway)].Framer.OpenWriter(ctx, wcfg)
 			if err != nil {
 				return drv.Failf("unexpected-error", "open-writer:"+placement(op.Groups, op.Gateway), "%s: open writer: %v", what, err)
 			}
@@ -368,11 +400,63 @@ func runC07Body(c c07Case, st *drv.Stats) (fail *drv.Failure) {
 						series = append(series, telem.NewSeriesV(vals...))
 					}
 				}
-				authorized, err := w.Write(frame.NewMulti(keys, series))
+				fr := frame.NewMulti(keys, series)
+				if op.Extra > 0 && op.Extra-1 < len(c.Groups) {
+					// a wider frame, narrowed to the writer's channels by its mask
+					wideKeys := append(channel.Keys{}, keys...)
+					wideSeries := append([]telem.Series{}, series...)
+					for _, ch := range byGroup[op.Extra-1] {
+						wideKeys = append(wideKeys, ch.ch.Key())
+						switch {
+						case ch.index:
+							vals := make([]telem.TimeStamp, len(tss))
+							for i, ts := range tss {
+								vals[i] = telem.TimeStamp(ts * c07Unit)
+							}
+							wideSeries = append(wideSeries, telem.NewSeriesV(vals...))
+						case ch.dt == "string":
+							vals := make([]string, len(tss))
+							for i := range tss {
+								vals[i] = "extra"
+							}
+							wideSeries = append(wideSeries, telem.NewSeriesV(vals...))
+						default:
+							wideSeries = append(wideSeries, telem.NewSeriesV(make([]int64, len(tss))...))
+						}
+					}
+					fr = frame.NewMulti(wideKeys, wideSeries).KeepKeys(keys)
+					st.Probe("write_masked_wider_frame")
+					if c.Groups[op.Extra-1].Lease != op.Gateway {
+						st.Probe("write_masked_frame_with_series_of_a_remote_leaseholder")
+					}
+				}
+				authorized, err := w.Write(fr)
 				if err != nil || !authorized {
 					_ = w.Close()
 					return drv.Failf("unexpected-error", "write:"+placement(op.Groups, op.Gateway), "%s: write: authorized=%v err=%v", what, authorized, err)
 				}
+			}
+			if op.NoAuto {
+				// nothing of this writer is committed yet: no leaseholder's engine shows it
+				for _, gi := range op.Groups {
+					lease := node.Key(c.Groups[gi].Lease)
+					for _, ch := range byGroup[gi] {
+						fr, err := cluster.Nodes[lease].Storage.TS.Read(ctx, telem.TimeRangeMax, ch.ch.Key().StorageKey())
+						if err != nil {
+							_ = w.Close()
+							return drv.Failf("unexpected-error", "local-read-before-commit", "%s: read channel %v on its leaseholder %d: %v", what, ch.ch.Key(), lease, err)
+						}
+						n := int64(0)
+						for _, s := range fr.Get(ch.ch.Key().StorageKey()).Series {
+							n += s.Len()
+						}
+						if int(n) != len(model[ch.ch.Key()]) {
+							_ = w.Close()
+							return drv.Failf("uncommitted-data-visible", placement(op.Groups, op.Gateway), "%s: auto-commit is off and Commit has not been called, but leaseholder %d shows %d samples of channel %v where %d are committed", what, lease, n, ch.ch.Key(), len(model[ch.ch.Key()]))
+						}
+					}
+				}
+				st.Probe("write_without_auto_commit")
 			}
 			if _, err := w.Commit(); err != nil {
 				_ = w.Close()
@@ -421,9 +505,17 @@ func runC07Body(c c07Case, st *drv.Stats) (fail *drv.Failure) {
 			}
 			a, b := op.A, op.B
 			bounds := telem.TimeRange{Start: telem.TimeStamp(a * c07Unit), End: telem.TimeStamp(b * c07Unit)}
-			it, err := cluster.Nodes[node.Key(op.Gateway)].Framer.OpenIterator(ctx, iterator.Config{Keys: keys, Bounds: bounds})
+			openBounds := bounds
+			if op.Rebound {
+				openBounds = telem.TimeRangeMax
+			}
+			it, err := cluster.Nodes[node.Key(op.Gateway)].Framer.OpenIterator(ctx, iterator.Config{Keys: keys, Bounds: openBounds})
 			if err != nil {
 				return drv.Failf("unexpected-error", "open-iterator:"+placement(op.Groups, op.Gateway), "%s: open iterator: %v", what, err)
+			}
+			if op.Rebound {
+				it.SetBounds(bounds)
+				st.Probe("read_after_set_bounds")
 			}
 			got := map[channel.Key][]string{}
 			collect := func() {
@@ -437,9 +529,47 @@ func runC07Body(c c07Case, st *drv.Stats) (fail *drv.Failure) {
 			// (iterator/synchronizer.go forwards the last response, not the merged one), so
 			// a false SeekFirst/Next does not mean "no data": the frame is read after every
 			// step regardless, and disagreements are only counted.
-			seekOK := it.SeekFirst()
+			var chunks []map[channel.Key][]string
+			if op.Rev {
+				// backwards: every step's frame is one chunk; chunks are put back in
+				// ascending order afterwards
+				it.SeekLast()
+				grab := func() {
+					fr := it.Value()
+					ck := map[channel.Key][]string{}
+					for _, ch := range rch {
+						ck[ch.ch.Key()] = readAll(fr, ch)
+					}
+					chunks = append(chunks, ck)
+				}
+				if op.Span == 0 {
+					it.Prev(telem.TimeSpanMax)
+					grab()
+				} else {
+					hi, lo := b, a
+					if hi > 2600 {
+						hi = 2600
+					}
+					if lo < 0 {
+						lo = 0
+					}
+					for s := (hi-lo)/op.Span + 3; s > 0; s-- {
+						it.Prev(telem.TimeSpan(op.Span * c07Unit))
+						grab()
+					}
+				}
+				for i := len(chunks) - 1; i >= 0; i-- {
+					for k, v := range chunks[i] {
+						got[k] = append(got[k], v...)
+					}
+				}
+				st.Probe("read_backwards")
+			}
+			seekOK := op.Rev || it.SeekFirst()
 			anyData := false
-			if op.Span == 0 {
+			if op.Rev {
+				// collected above
+			} else if op.Span == 0 {
 				ok := it.Next(telem.TimeSpanMax)
 				before := len(got)
 				collect()
